@@ -7,6 +7,8 @@ Rejections of the data / dimension / property / frame APIs are judged by the sam
 import file_common
 
 def run(chk, replay=None):
+    if replay is not None and replay.get('m') == 'trace':
+        return file_common.run_traces(chk, lambda e: e['res'] == 'reject', 1, 0, replay=replay)
     if replay is not None and replay.get('m') == 'dims':
         import dims_common
         return dims_common.run_dims(chk, replay=replay)
@@ -35,4 +37,6 @@ def run(chk, replay=None):
         run.require_ok()
         chk.note_tlc(run)
         chk.absorb(recs, verdicts, rp)
+    # direction B: random API programs recorded from the real library, validated against NixFileTrace.tla
+    file_common.run_traces(chk, lambda e: e['res'] == 'reject', 24 if chk.thorough else 6, 1500 if chk.thorough else 400)
     chk.exhaustive = False
